@@ -84,6 +84,12 @@ Proof. apply firstn_length. Qed.
 
 End Lists.
 
+Lemma skipn_skipn' {A} (a b : nat) (l : list A) : skipn a (skipn b l) = skipn (b + a) l.
+Proof.
+  revert l. induction b as [|b IH]; intros l; [reflexivity|].
+  destruct l as [|x l]; [rewrite !skipn_nil; reflexivity|]. cbn [skipn Nat.add]. apply IH.
+Qed.
+
 Lemma upd_length a i v : length (upd a i v) = length a.
 Proof.
   unfold upd. destruct (i <? length a) eqn:E; [|reflexivity].
